@@ -38,7 +38,43 @@ class _D(Domain):
         return walker.resolve_helper(st, call)
 
 
+def check_memo(program, rep):
+    """No function that reaches a resource through a map / handle parameter
+    is memoised: the memo survives Handle.clear()."""
+    from .util import memoised
+    bad = None
+    n = 0
+    for fn, d in memoised(program):
+        n += 1
+        ps = set(fn.params())
+        for x in ast.walk(fn.node):
+            hit = None
+            if isinstance(x, ast.Subscript) and isinstance(
+                    x.value, ast.Name) and x.value.id in ps:
+                hit = x
+            if isinstance(x, ast.Call):
+                f_ = x.func
+                if isinstance(f_, ast.Name) and f_.id in ps:
+                    hit = x
+                if isinstance(f_, ast.Attribute) and isinstance(
+                        f_.value, ast.Name) and f_.value.id in ps and \
+                        f_.attr in ('get', '__getitem__', '__call__'):
+                    hit = x
+            if hit is not None and bad is None:
+                bad = (fn, d, hit)
+    rep.check(bad is None, 'C12.memo', bad[0].where if bad else
+              'whole package', bad[1] if bad else 'functools memoisers',
+              f'no memoised function resolves resources ({n} memoised '
+              'function(s) in the package)',
+              (f'{bad[0].qualname} is memoised and resolves a resource '
+               f'({norm(bad[2])}): after handle.clear() callers keep getting '
+               'the stale object - the access is not "the identical object '
+               'handle() returns" and no fresh load happens on that path')
+              if bad else '', line=bad[1].lineno if bad else None)
+
+
 def run(program, rep, tier):
+    check_memo(program, rep)
     H = program.cls('Handle')
     hsite = f'{H.module.relpath}:Handle'
     subs = program.subclasses(H)
